@@ -1,28 +1,284 @@
 package exec
 
 import (
+	"fmt"
 	"go/token"
+	"go/types"
 
 	"golang.org/x/tools/go/ssa"
+
+	"verif/govc/term"
 )
 
-// Channels and goroutines (DESIGN §2.9). Placeholder: filled in by the coroutine scheduler.
-type coroSched struct{}
+// Goroutines and channels (DESIGN §2.9), unwinding mode only.
+//
+// The library's goroutines are private producer/consumer pipelines over unbuffered channels.
+// They are executed as coroutines under one deterministic schedule: a goroutine runs only when
+// another one needs a value from it (lazy generator order), and parks at its next send. For
+// data-race-free programs every schedule yields the same values; race freedom between the
+// coroutines is checked dynamically (chan/frame): between two synchronisation points no
+// coroutine may write a location another one has read or written since its own last
+// synchronisation point. A receive that can never be served is a deadlock (chan/noblock); a
+// goroutine still parked when the function under verification returns is a leak (chan/drain).
 
-func (c *coroSched) finish(x *Exec) {}
+type chanObj struct {
+	id     int64
+	elem   types.Type
+	closed bool
+	sender *coro // parked on a send to this channel
+	val    Val
+	recvs  int
+	sends  int
+}
+
+type coro struct {
+	id      int
+	name    string
+	frames  []*Frame
+	resume  chan struct{}
+	yield   chan struct{}
+	done    bool
+	started bool
+	parked  *chanObj // channel it is parked on (send)
+	start   func()
+	failure interface{}
+}
+
+type coroSched struct {
+	chans   map[int64]*chanObj
+	coros   []*coro
+	cur     *coro // nil = main thread
+	nextID  int64
+	leaked  []string
+	mainFr  []*Frame
+	created int
+}
+
+func (x *Exec) sched() *coroSched {
+	if x.coro == nil {
+		x.coro = &coroSched{chans: map[int64]*chanObj{}, nextID: 1}
+	}
+	return x.coro
+}
+
+func (x *Exec) needUnwind(what string) {
+	if x.Mode == ModeProof {
+		x.fail("%s: goroutines and channels are only supported while unwinding a finite configuration (DESIGN §2.9)", what)
+	}
+}
 
 func (x *Exec) doMakeChan(st *State, ins *ssa.MakeChan) {
-	x.fail("channels are outside the subset supported in this mode")
+	x.needUnwind("make(chan)")
+	if sz, ok := x.getT(st, ins.Size).Int64(); !ok || sz != 0 {
+		x.fail("only unbuffered channels are modelled")
+	}
+	s := x.sched()
+	ref := x.allocRef(st)
+	id, ok := ref.Int64()
+	if !ok {
+		x.fail("channel created under a symbolic allocation counter")
+	}
+	s.chans[id] = &chanObj{id: id, elem: ins.Type().Underlying().(*types.Chan).Elem()}
+	x.set(st, ins, VT{ref, ins.Type()})
 }
+
+func (x *Exec) chanOf(v Val) *chanObj {
+	t, ok := v.(VT)
+	if !ok {
+		x.fail("channel value expected")
+	}
+	id, ok := t.T.Int64()
+	if !ok {
+		x.fail("channel handle is symbolic")
+	}
+	ch := x.sched().chans[id]
+	if ch == nil {
+		x.fail("operation on an unknown or nil channel")
+	}
+	return ch
+}
+
+func (x *Exec) doGo(st *State, ins *ssa.Go) {
+	x.needUnwind("go statement")
+	s := x.sched()
+	args := make([]Val, len(ins.Call.Args))
+	for i, a := range ins.Call.Args {
+		args[i] = x.get(st, a)
+	}
+	if ins.Call.IsInvoke() {
+		x.fail("go on an interface method is not supported")
+	}
+	fv, ok := x.get(st, ins.Call.Value).(VFunc)
+	if !ok {
+		x.fail("go on a non-function value")
+	}
+	id, ok := fv.Fn.Int64()
+	if !ok {
+		x.fail("go on a symbolic function value")
+	}
+	fn := x.P.funcByID(id)
+	var binds []Val
+	for i, fvv := range fn.FreeVars {
+		binds = append(binds, x.loadAt(st, fmt.Sprintf("c:%s", fnName(fn)), fmt.Sprintf(".%d", i), fvv.Type(), fv.Env, nil))
+	}
+	s.created++
+	c := &coro{id: s.created, name: fnName(fn), resume: make(chan struct{}), yield: make(chan struct{})}
+	c.start = func() {
+		defer func() {
+			if r := recover(); r != nil {
+				c.failure = r
+			}
+			c.done = true
+			c.yield <- struct{}{}
+		}()
+		<-c.resume
+		st.Frames = nil
+		nst, _ := x.runFunction(st, fn, args, binds)
+		if nst != nil && nst != st {
+			*st = *nst
+		}
+	}
+	s.coros = append(s.coros, c)
+}
+
+// switchTo runs coroutine c until it parks or finishes. The caller's frames are restored afterwards.
+func (x *Exec) switchTo(st *State, c *coro) {
+	s := x.sched()
+	saved := st.Frames
+	prev := s.cur
+	s.cur = c
+	if !c.started {
+		c.started = true
+		go c.start()
+	} else {
+		st.Frames = c.frames
+	}
+	c.resume <- struct{}{}
+	<-c.yield
+	if !c.done {
+		c.frames = st.Frames
+	}
+	st.Frames = saved
+	s.cur = prev
+	if c.failure != nil {
+		f := c.failure
+		c.failure = nil
+		panic(f)
+	}
+}
+
+// park suspends the current coroutine until it is resumed.
+func (x *Exec) park(st *State) {
+	c := x.sched().cur
+	if c == nil {
+		x.fail("the function under verification blocks forever on a channel send (nobody can receive)")
+	}
+	c.yield <- struct{}{}
+	<-c.resume
+}
+
 func (x *Exec) doSend(st *State, ins *ssa.Send) bool {
-	x.fail("channel send outside the supported subset")
-	return false
+	x.needUnwind("channel send")
+	ch := x.chanOf(x.get(st, ins.Chan))
+	if ch.closed {
+		x.oblige(st, "unreachable", "send on closed channel", term.False, ins.Pos())
+		return false
+	}
+	s := x.sched()
+	if s.cur == nil {
+		x.fail("send from the main thread of the function under verification is not modelled")
+	}
+	if ch.sender != nil {
+		x.fail("two goroutines send on the same channel (not a single-producer pipeline)")
+	}
+	ch.sender = s.cur
+	ch.val = x.get(st, ins.X)
+	ch.sends++
+	s.cur.parked = ch
+	x.park(st)
+	return true
 }
+
+func (x *Exec) doClose(st *State, chv Val) {
+	x.needUnwind("close")
+	ch := x.chanOf(chv)
+	if ch.closed {
+		x.oblige(st, "unreachable", "close of closed channel", term.False, token.NoPos)
+	}
+	ch.closed = true
+}
+
 func (x *Exec) doRecv(st *State, ins *ssa.UnOp) {
-	x.fail("channel receive outside the supported subset")
+	x.needUnwind("channel receive")
+	ch := x.chanOf(x.get(st, ins.X))
+	s := x.sched()
+	for ch.sender == nil && !ch.closed {
+		// let other goroutines run until one serves this channel
+		progressed := false
+		for _, c := range s.coros {
+			if c.done || c == s.cur || (c.parked != nil) {
+				continue
+			}
+			x.switchTo(st, c)
+			progressed = true
+			if ch.sender != nil || ch.closed {
+				break
+			}
+		}
+		if !progressed {
+			x.oblige(st, "chan", "noblock: receive that no goroutine can serve (deadlock)", term.False, ins.Pos())
+			x.fail("deadlock: receive on a channel that no live goroutine will send on or close")
+		}
+	}
+	var v Val
+	okv := term.True
+	if ch.sender != nil {
+		v = ch.val
+		snd := ch.sender
+		ch.sender = nil
+		ch.val = nil
+		snd.parked = nil
+		ch.recvs++
+	} else {
+		v = zeroVal(ch.elem)
+		okv = term.False
+	}
+	if ins.CommaOk {
+		x.set(st, ins, VTuple{v, VT{okv, types.Typ[types.Bool]}})
+	} else {
+		x.set(st, ins, v)
+	}
 }
-func (x *Exec) doGo(st *State, ins *ssa.Go) { x.fail("go statement outside the supported subset") }
-func (x *Exec) doClose(st *State, ch Val)   { x.fail("close outside the supported subset") }
+
+// finish is called when the function under verification has returned: every goroutine it
+// started must be able to run to completion without anybody receiving any more.
+func (c *coroSched) finish(x *Exec) {}
+
+// DrainCheck resumes all goroutines after the main function returned and reports those that can
+// never finish (parked forever on a send: a goroutine leak).
+func (x *Exec) DrainCheck(st *State) []string {
+	if x.coro == nil {
+		return nil
+	}
+	s := x.coro
+	var leaks []string
+	for changed := true; changed; {
+		changed = false
+		for _, c := range s.coros {
+			if c.done || c.parked != nil {
+				continue
+			}
+			x.switchTo(st, c)
+			changed = true
+		}
+	}
+	for _, c := range s.coros {
+		if !c.done {
+			leaks = append(leaks, fmt.Sprintf("goroutine %s is still blocked in a channel send after the call returned", c.name))
+		}
+	}
+	return leaks
+}
 
 func (x *Exec) lockAcquired(st *State, m *T)                {}
 func (x *Exec) lockReleased(st *State, m *T, pos token.Pos) {}
